@@ -9,6 +9,7 @@ pub mod oracles;
 pub mod stuck;
 pub mod payload;
 pub mod rng;
+pub mod scn;
 
 /// parse `--key value` style args into a map
 pub fn args() -> std::collections::HashMap<String, String> {
